@@ -232,9 +232,20 @@ def _linear(name: str) -> list[F]:
     return out
 
 
-FIELDS: dict[str, list[F]] = {name: _linear(name) for name in _OWN}
-CHILD_FIELDS: dict[str, list[F]] = {n: [f for f in fs if f.kind != "prop"] for n, fs in FIELDS.items()}
-PROP_FIELDS: dict[str, list[F]] = {n: [f for f in fs if f.kind == "prop"] for n, fs in FIELDS.items()}
+class _Tab(dict):  # a node of a class that is not part of the universe (library-internal) has no known fields
+    def __missing__(self, k: str) -> list:
+        return []
+
+
+class _MroTab(dict):
+    def __missing__(self, k: str) -> list:
+        return [k]
+
+
+MRO = _MroTab(MRO)
+FIELDS: dict[str, list[F]] = _Tab({name: _linear(name) for name in _OWN})
+CHILD_FIELDS: dict[str, list[F]] = _Tab({n: [f for f in fs if f.kind != "prop"] for n, fs in FIELDS.items()})
+PROP_FIELDS: dict[str, list[F]] = _Tab({n: [f for f in fs if f.kind == "prop"] for n, fs in FIELDS.items()})
 
 NODE_CLASSES = [n for n in _OWN if n != "Expr"]
 LEAF_CLASSES = ["LeafA", "LeafB", "LeafA2", "Meta", "Vals", "FS", "Carrier", "Serial", "Upper", "Lit", "Located", "Typed"]
